@@ -44,6 +44,7 @@ pub struct Opts {
     pub seed: u64,
     pub timeout_ms: u64,
     pub op_sleep_us: u64,
+    pub churn: bool,
 }
 
 struct Sched {
@@ -769,6 +770,15 @@ pub fn run(input: &str, output: &str, opts: Opts) -> std::io::Result<i32> {
         let eff = |v: usize, d: usize| if v == 0 { d } else { v };
         emit(json!({"ev":"reset","run":id,"cfg":{"cancelable":opts.cancelable,"enabled":!opts.disabled,"ready":opts.ready,"sr_threads":sr_threads,
             "queue":eff(opts.queue, 10240),"stack":eff(opts.stack, 4096),"ring":eff(opts.ring, 10240),"foreign":foreign}}));
+        if opts.churn {
+            // the same behaviours over and over: the validator watches the bytes allocated at quiescence
+            let mut log = s.log.lock().unwrap();
+            if let Some(last) = log.pop() {
+                let mut v: Value = serde_json::from_str(&last).unwrap();
+                v["cfg"]["churn"] = json!(true);
+                log.push(v.to_string());
+            }
+        }
         s.steer.store(true, Ordering::SeqCst);
 
         let mut sc = Sched {
